@@ -396,6 +396,13 @@ func runC16(p *C16Plan) (*stats.Case, error) {
 		if err := oneJSONValue(resp.Body); err != nil {
 			return nil, fmt.Errorf("%s: status %d, body is not a single JSON document: %v: %q", what, resp.Code, err, snip(resp.Body))
 		}
+		if resp.Code < 300 {
+			// an error document (code + message) is what a client mistake earns - with a 4xx status, never dressed as success
+			var e errResp
+			if json.Unmarshal(resp.Body, &e) == nil && e.Code != "" && e.Message != "" {
+				return nil, fmt.Errorf("%s: status %d with an error document as body: %q", what, resp.Code, snip(resp.Body))
+			}
+		}
 		if resp.Code >= 400 {
 			var e errResp
 			if json.Unmarshal(resp.Body, &e) != nil || e.Code == "" || e.Message == "" {
